@@ -1,7 +1,7 @@
 (* C15 - theorems only.  See DESIGN.md section 6, C15; model in Io/Export.v. *)
 From Coq Require Import String.
 From Coq Require Import List ZArith QArith.
-From Sdfx Require Import Io.Export.
+From Sdfx Require Import Io.Export Io.ExportOps.
 Import ListNotations.
 
 (* ------------------------------------------------------------------ 3MF *)
@@ -125,6 +125,26 @@ Theorem C15_dxf_object_order_preserved : forall batches : list (list seg),
   dxf_object_lines batches = map dxf_spec (concat batches).
 Proof. exact dxf_object_lines_spec. Qed.
 Print Assumptions C15_dxf_object_order_preserved.
+
+(* The drawing object as a state machine: after NewDXF, ANY sequence of Line / Lines /
+   Points / Triangle / Box calls leaves exactly the entities each call supplies, in
+   order - every segment a LINE on layer "Lines", also after Points has made "Points"
+   the current layer (each (DXF).Line selects "Lines" itself). *)
+Theorem C15_dxf_ops_history_independent : forall ops : list dxf_op,
+  dxf_run ops = flat_map op_spec ops.
+Proof. exact dxf_run_spec. Qed.
+Print Assumptions C15_dxf_ops_history_independent.
+
+Theorem C15_dxf_ops_lines_on_Lines : forall ops : list dxf_op,
+  filter is_line (dxf_run ops) = map line_spec (flat_map op_segs ops).
+Proof. exact dxf_run_lines. Qed.
+Print Assumptions C15_dxf_ops_lines_on_Lines.
+
+Example C15_dxf_ops_example :
+  dxf_run [OpPoints [(1, 2)] (1 # 2); OpLine ((0, 0), (1, 0)); OpPoints [] 1; OpTriangle (0, 0) (1, 0) (0, 1)]
+  = [ECircle "Points" (1, 2, 0) (1 # 2); ELine "Lines" (0, 0, 0) (1, 0, 0);
+     ELine "Lines" (0, 0, 0) (1, 0, 0); ELine "Lines" (1, 0, 0) (0, 1, 0); ELine "Lines" (0, 1, 0) (0, 0, 0)].
+Proof. reflexivity. Qed.
 
 (* ------------------------------------------------------------------ SVG *)
 (* The bounds kept by SVG.Line are the extremes of all end points. *)
